@@ -19,7 +19,9 @@ EXPLANATION = (
     "is reset by initialize(), which Network calls before reading a file / creating a reaction from a string; R5 the renderers (templateloader.py, "
     "patches.py) never write to an object they were given (parameters and locals aliasing them): no in-place method, item/attribute store or del -- "
     "the one sanctioned exception (network.reindex(), idempotent) is listed; R6 outside species.py the process-wide Species tables are read only by the "
-    "listed readers (name parsing under installation, the Enzo patch's save/restore).")
+    "listed readers (name parsing under installation, the Enzo patch's save/restore); R7 a renderer keeps nothing between two renderings (helper objects live inside one "
+    "rendering call); R8 Species.__lt__ -- the order sorted() gives the SET of species in Network.species -- compares a key that contains the name itself on both sides, so "
+    "that two different species never tie and fall back on the hash-seed dependent set order (shared with C15.R7).")
 ASSUMPTIONS = [
     "byte identity of two actual runs is not decided",
     "Jinja's list_templates() returns a sorted list",
@@ -156,6 +158,12 @@ def check(ctx):
     _r5(ctx, pkg)
     _r6(ctx, pkg)
     stateless_renderer(ctx, pkg, "R7")
+    # R8 the order of Network.species (sorted() of a SET of species: IDX_ macros, rows and columns of everything generated) is decided
+    # by Species.__lt__ alone only if two different species never tie -- a tie leaves the two in the set's iteration order, which
+    # follows the hash seed (shared with C15.R7, where the same order makes the formatted reactions canonical)
+    from .c15 import _r7 as total_order
+    ctx.absorb(lambda sub: total_order(sub, package(sub.tree), "R8", consequence="and `Network.species` sorts a SET: tied species (CO / #CO) stay in the set's iteration order, which follows "
+                                       "the interpreter's hash seed -- every IDX_ macro, the rows of fex / jac and the tables of constants change from run to run"), "R8")
 
 
 # ------------------------------------------------------------------ R7  a renderer keeps nothing between two renderings
@@ -1322,4 +1330,18 @@ MUTANTS += [
         {"file": NF, "old": _FACTORY_AT, "new": _CM_GEN.replace("    rclass.initialize()\n    yield rclass\n", "    yield rclass\n    rclass.initialize()\n") + _FACTORY_AT},
         {"file": NF, "old": _FILE_INIT, "new": "        with _reading(rclass, format), open(filename, \"r\") as networkfile:\n"},
         {"file": NF, "old": _FILE_FINAL, "new": "                    raise e\n"}], "rules": ["R4"]},
+]
+
+# ---- R8: the species order is total over names (shared with C15.R7) ----------------------------------------------------------------
+_LT = "            return self.name < o.name\n"
+_SORTKEY = ("    @property\n    def _sortkey(self):\n        if self.is_electron:\n            return (\"e\", -1, 0)\n        group = self.grain_group if self.is_grain else self.surface_group\n"
+            "        return (self.basename, self.charge, group or 0)\n\n    def __repr__(self) -> str:\n")
+MUTANTS += [
+    {"name": "species-order-by-key-that-forgets-the-phase", "edits": [
+        {"file": SP, "old": _LT, "new": "            return self._sortkey < o._sortkey\n"},
+        {"file": SP, "old": "    def __repr__(self) -> str:\n", "new": _SORTKEY}], "rules": ["R8"]},
+    {"name": "species-order-by-alias", "file": SP, "old": _LT, "new": "            return self.alias < o.alias\n", "rules": ["R8"]},
+]
+BENIGN += [
+    {"name": "species-order-by-name-then-charge", "file": SP, "old": _LT, "new": "            return (self.name, self.charge) < (o.name, o.charge)\n"},
 ]
